@@ -769,7 +769,7 @@ pub fn property() -> Property {
     Property {
         id: "C14",
         level: "exploration",
-        rule: "generated: pairs of event sequences (0..4 left, 0..4 right; key k1..k3 drawn from 1..3 distinct keys, or no key; timestamp 0..12 or a 0..5 / 0..2 prefix of it, sometimes shifted by 1.7e9; payload 0..2) x window {0,1,3,10 s, sometimes +500 ms} (one case in four: window, timestamp offsets, watermark increments and lag multiplied by 60 / 3600 / 86400 / 1001 / 65537 and every timestamp then moved by -1, 0 or +1) x condition {true, l.v<=r.v} x id scheme {distinct, same ids on both sides}; for every pair ALL merges of the two arrival orders are executed (<= 70). Parts: nowm = no update_watermark call during the run (node); wm = non-decreasing watermark updates between arrivals (positional slots with increments 0..13, or derived from the highest timestamp seen minus a lag); mgr = both through StreamJoinManager (watermark announced for L, R or both) next to a decoy join (L,X); exh-* = exhaustive enumeration of every pair of sequences with n_l+n_r events over {k1,k2,none} x {0,1,3,4} x payload {0,1} x W {0,1,3} x 2 conditions (x every watermark slot assignment over a 2..4 letter increment alphabet) x all merges. Oracle: nested-loop reference join (both keys present and equal, |tl-tr| <= W, condition true); without watermarks the emitted multiset of (left,right) equals the reference for every merge and a final update_watermark(0) emits nothing; with watermarks the emitted pairs are a duplicate-free subset of the reference that contains every pair whose earlier element satisfied watermark - t <= W when the later one arrived. Non-trivial: the reference is non-empty and (a key is shared by >= 2 events on each side, or an event without key is present, or a reference pair sits exactly at distance W); distinct by the whole case (sequences, window, condition, ids, watermark plan, routing).",
+        rule: "generated: pairs of event sequences (0..4 left, 0..4 right; key k1..k3 drawn from 1..3 distinct keys, or no key; timestamp 0..12 or a 0..5 / 0..2 prefix of it, sometimes shifted by 1.7e9; payload 0..2) x window {0,1,3,10 s, sometimes +500 ms} (one case in four: window, timestamp offsets, watermark increments and lag multiplied by 60 / 3600 / 86400 / 1001 / 65537 and every timestamp then moved by -1, 0 or +1) x condition {true, l.v<=r.v} x id scheme {distinct, same ids on both sides}; for every pair ALL merges of the two arrival orders are executed (<= 70). Parts: nowm = no update_watermark call during the run (node); wm = non-decreasing watermark updates between arrivals (positional slots with increments 0..13, or derived from the highest timestamp seen minus a lag); mgr = both through StreamJoinManager (watermark announced for L, R or both) next to a decoy join (L,X); exh-* = exhaustive enumeration of every pair of sequences with n_l+n_r events over {k1,k2,none} x {0,1,3,4} x payload {0,1} x W {0,1,3} x 2 conditions (x every watermark slot assignment over a 2..4 letter increment alphabet) x all merges. Oracle: nested-loop reference join (both keys present and equal, |tl-tr| <= W, condition true); without watermarks the emitted multiset of (left,right) equals the reference for every merge and a final update_watermark(0) emits nothing; with watermarks the emitted pairs are a duplicate-free subset of the reference that contains every pair whose earlier element satisfied watermark - t <= W when the later one arrived. Non-trivial: the reference is non-empty and (a key is shared by >= 2 events on each side, or an event without key is present, or a reference pair sits exactly at distance W); distinct by the whole case (sequences, window, condition, ids, watermark plan, routing). Manager parts: every second manager also hosts a join whose left input is R and one whose right input is L (every fourth has unregistered the first again). The object under test is built with new() or with default() in turn (by a hash of the case's data, no draw).",
         assumptions: vec![
             "event timestamps are in the unit the node compares them in (window duration.as_secs()), i.e. seconds".into(),
             "an event whose key extractor returns None has no join key and joins with nothing (None is not equal to None)".into(),
